@@ -29,7 +29,7 @@ def cfg_features(cfg):
     return feats
 
 
-def drive(sh, prop, cfg, klass, requests=('hit', 'hit2', 'hit-slashes', 'hit-absent', 'hit-absent', 'hit-long', 'mistyped', '404', '405'), shape_only=False, nontrivial=None,
+def drive(sh, prop, cfg, klass, requests=('hit', 'hit2', 'hit-slashes', 'hit-absent', 'hit-absent', 'hit-long', 'hit-text', 'hit-text-absent', 'mistyped', '404', '405'), shape_only=False, nontrivial=None,
           all_props=False, traces=None):
     stats = collections.Counter()
     try:
@@ -54,6 +54,8 @@ def drive(sh, prop, cfg, klass, requests=('hit', 'hit2', 'hit-slashes', 'hit-abs
             sh.hit('nonunique-type-on-two-levels')
         if cfg['route'].get('siblings'):
             sh.hit('sibling-routes-with-own-middlewares')
+            if cfg['route'].get('sibling_provides'):
+                sh.hit('sibling-middleware-provides-a-name-the-route-mentions')
         if cfg['route'].get('decoys'):
             sh.hit('decoy-routes-passed-over')
         if any(l.get('prefix_bindings') for l in cfg['levels']):
@@ -76,7 +78,7 @@ def drive(sh, prop, cfg, klass, requests=('hit', 'hit2', 'hit-slashes', 'hit-abs
 def replay_cfg(sh, prop, case):
     cfg = case['cfg']
     traces = []
-    findings, info = di_eval.evaluate(cfg, requests=tuple(case.get('requests') or ('hit', 'hit2', 'hit-slashes', 'hit-absent', 'hit-absent', 'hit-long', 'mistyped', '404', '405')),
+    findings, info = di_eval.evaluate(cfg, requests=tuple(case.get('requests') or ('hit', 'hit2', 'hit-slashes', 'hit-absent', 'hit-absent', 'hit-long', 'hit-text', 'hit-text-absent', 'mistyped', '404', '405')),
                                       shape_only=case.get('shape_only', False), traces=traces)
     sh.notes['model'] = info
     sh.notes['cfg'] = di_eval.short_cfg(cfg)
